@@ -17,7 +17,7 @@
    model takes no action otherwise): T1, T2 and chain members have exactly one output, chain members have no nested
    graphs, and src, T1's output, the chain outputs and T2's output are pairwise distinct names. *)
 From Coq Require Import ZArith String List Bool Arith Lia.
-From J2O Require Import PyLib Tensor Graph Redirect Reshape ElemCommute ChainSim ReshapePairPass ChainFacts C02Opt ElemSem.
+From J2O Require Import PyLib Tensor Graph Redirect Preserve Reshape ElemCommute ChainSim ReshapePairPass ChainFacts C02Opt ElemSem.
 From J2OGen Require Import GenCast GenOpt.
 Import ListNotations.
 
@@ -618,6 +618,13 @@ Proof.
   intro Hin. pose proof (prank_ge vs v Hin) as H. unfold pwn. cbn [shape]. rewrite app_length, repeat_length. lia.
 Qed.
 
+(* the operands of an elementwise node are one-element tensors or have ONE common shape (no genuine broadcasting between
+   two multi-element operands) in the run at hand: part of what the region theorems need from the world *)
+Definition uniform_operands (A : Type) (sem : string -> list nat -> list (tensor A) -> option (list (tensor A)))
+  (g : tgraph) (e : env (tensor A)) : Prop :=
+  forall ef n vs, eval (tensor A) sem (tg_nodes g) e = Some ef -> In n (tg_nodes g) -> is_elem n = true ->
+    str_in (nop n) pw_ops_all = true -> lookups (tensor A) ef (n_uses n) = Some vs -> operands_ok vs.
+
 Section TSound.
   Variable A : Type.
   Notation V := (tensor A).
@@ -799,25 +806,29 @@ Section TSound.
       apply transpose_inverse; auto.
     Qed.
 
+    Lemma tother_outs n : In n (tg_nodes g) -> keep a n = true -> in_members (chain_outs a) n = false ->
+      forall y, In y (n_outs n) -> tinD y = false /\ y <> ac_t2 a /\ y <> ac_t1 a.
+    Proof.
+      intros Hn Hk Hnm y Hy. unfold keep in Hk. apply andb_prop in Hk as [Hk1 Hk2]. apply negb_true_iff in Hk1, Hk2.
+      assert (H1 : y <> ac_t1 a).
+      { intros ->. rewrite (T1_unique _ _ a T1 T2 Hnd Hcs n Hn Hy) in Hk1.
+        rewrite (node_is_true _ _ (cs_T1_outs _ _ _ _ _ Hcs)) in Hk1. discriminate. }
+      assert (H2 : y <> ac_t2 a).
+      { intros ->. rewrite (T2_unique _ _ a T1 T2 Hnd Hcs n Hn Hy) in Hk2.
+        rewrite (node_is_true _ _ (cs_T2_outs _ _ _ _ _ Hcs)) in Hk2. discriminate. }
+      split; [|split]; auto. apply tinD_false. intros [E|Hc]; [now symmetry in E|].
+      unfold chain_outs in Hc. apply in_map_iff in Hc as (c & Hc & Hcin).
+      pose proof (cs_chain_outs _ _ _ _ _ Hcs c Hcin) as Ho. rewrite Hc in Ho.
+      assert (n = c).
+      { eapply (defs_unique (tg_nodes g)); eauto; [now apply (cs_chain_in _ _ _ _ _ Hcs) | rewrite Ho; now left]. }
+      subst c. destruct (chain_nonempty_member _ _ a T1 T2 Hcs n Hcin). congruence.
+    Qed.
+
     Lemma tother_step n em em' e1 : In n (tg_nodes g) -> keep a n = true -> in_members (chain_outs a) n = false ->
       (forall y, In y (n_outs n) -> em y = None) -> NoDup (n_outs n) ->
       Inv em em' -> stepg em n = Some e1 -> exists e1', stepg em' (subst_map (rho a) n) = Some e1' /\ Inv e1 e1'.
     Proof.
-      intros Hn Hk Hnm Hfresh Hndo Hi Hs.
-      assert (Houts : forall y, In y (n_outs n) -> tinD y = false /\ y <> ac_t2 a /\ y <> ac_t1 a).
-      { intros y Hy. unfold keep in Hk. apply andb_prop in Hk as [Hk1 Hk2]. apply negb_true_iff in Hk1, Hk2.
-        assert (H1 : y <> ac_t1 a).
-        { intros ->. rewrite (T1_unique _ _ a T1 T2 Hnd Hcs n Hn Hy) in Hk1.
-          rewrite (node_is_true _ _ (cs_T1_outs _ _ _ _ _ Hcs)) in Hk1. discriminate. }
-        assert (H2 : y <> ac_t2 a).
-        { intros ->. rewrite (T2_unique _ _ a T1 T2 Hnd Hcs n Hn Hy) in Hk2.
-          rewrite (node_is_true _ _ (cs_T2_outs _ _ _ _ _ Hcs)) in Hk2. discriminate. }
-        split; [|split]; auto. apply tinD_false. intros [E|Hc]; [now symmetry in E|].
-        unfold chain_outs in Hc. apply in_map_iff in Hc as (c & Hc & Hcin).
-        pose proof (cs_chain_outs _ _ _ _ _ Hcs c Hcin) as Ho. rewrite Hc in Ho.
-        assert (n = c).
-        { eapply (defs_unique (tg_nodes g)); eauto; [now apply (cs_chain_in _ _ _ _ _ Hcs) | rewrite Ho; now left]. }
-        subst c. destruct (chain_nonempty_member _ _ a T1 T2 Hcs n Hcin). congruence. }
+      intros Hn Hk Hnm Hfresh Hndo Hi Hs. pose proof (tother_outs n Hn Hk Hnm) as Houts.
       apply (rinv_kept_step V teq sem (rho a) trl em em' n e1 Hi Hs); auto.
       - intros y Hy. destruct (Houts y Hy) as (_ & H2 & H1). now apply rho_other.
       - intros vs vs' o Hl Hl' Hrl Hsem Hlen.
@@ -982,25 +993,110 @@ Section TSound.
         + now rewrite (proj1 Hyv').
     Qed.
 
+    Lemma taction_step_all pre n post em em' e1 : tg_nodes g = pre ++ n :: post -> evalg pre e = Some em ->
+      (forall x v, em x = Some v -> ef x = Some v) -> Inv em em' -> stepg em n = Some e1 ->
+      (forall x v, e1 x = Some v -> ef x = Some v) ->
+      if keep a n then exists e1', stepg em' (subst_map (rho a) n) = Some e1' /\ Inv e1 e1' else Inv e1 em'.
+    Proof.
+      intros Hsplit Hpre Hle Hi Hs Hle1. pose proof (tadm_ssa _ _ Hadm) as Hssa.
+      destruct (fresh_at V sem _ _ _ _ _ _ Hssa Hsplit Hpre) as [Hfresh Hndo].
+      assert (Hn : In n (tg_nodes g)) by (rewrite Hsplit; apply in_or_app; right; now left).
+      destruct (keep a n) eqn:Hk.
+      - destruct (in_members (chain_outs a) n) eqn:Hm.
+        + apply (tchain_step n em em' e1); auto. exact (chain_member _ _ a T1 T2 Hnd Hcs n Hn Hm).
+        + apply (tother_step n em em' e1); auto.
+      - unfold keep in Hk. apply andb_false_iff in Hk as [Hk|Hk]; apply negb_false_iff in Hk; apply node_is_outs in Hk.
+        + assert (n = T1) by (apply (T1_unique _ _ a T1 T2 Hnd Hcs n Hn); rewrite Hk; now left). subst n.
+          apply (tT1_step em em' e1); auto. apply Hfresh. rewrite Hk. now left.
+        + assert (n = T2) by (apply (T2_unique _ _ a T1 T2 Hnd Hcs n Hn); rewrite Hk; now left). subst n.
+          apply (tT2_step em em' e1); auto. apply Hfresh. rewrite Hk. now left.
+    Qed.
+
     Lemma taction_run :
       refinesg (tg_graph g) (mkGraph (map (subst_map (rho a)) (filter (keep a) (tg_nodes g))) (map (rho a) (tg_outputs g))) e.
     Proof.
       pose proof (tadm_ssa _ _ Hadm) as Hssa.
       apply (sim_refines V teq sem Inv (keep a) (subst_map (rho a)) (tg_nodes g) (tg_outputs g) (map (rho a) (tg_outputs g)) e Hssa tinv_init).
       intros ef0 Hev0. rewrite Hev in Hev0. injection Hev0 as <-. split.
-      - intros pre n post em em' e1 Hsplit Hpre Hle Hi Hs Hle1.
-        destruct (fresh_at V sem _ _ _ _ _ _ Hssa Hsplit Hpre) as [Hfresh Hndo].
-        assert (Hn : In n (tg_nodes g)) by (rewrite Hsplit; apply in_or_app; right; now left).
-        destruct (keep a n) eqn:Hk.
-        + destruct (in_members (chain_outs a) n) eqn:Hm.
-          * apply (tchain_step n em em' e1); auto. exact (chain_member _ _ a T1 T2 Hnd Hcs n Hn Hm).
-          * apply (tother_step n em em' e1); auto.
-        + unfold keep in Hk. apply andb_false_iff in Hk as [Hk|Hk]; apply negb_false_iff in Hk; apply node_is_outs in Hk.
-          * assert (n = T1) by (apply (T1_unique _ _ a T1 T2 Hnd Hcs n Hn); rewrite Hk; now left). subst n.
-            apply (tT1_step em em' e1); auto. apply Hfresh. rewrite Hk. now left.
-          * assert (n = T2) by (apply (T2_unique _ _ a T1 T2 Hnd Hcs n Hn); rewrite Hk; now left). subst n.
-            apply (tT2_step em em' e1); auto. apply Hfresh. rewrite Hk. now left.
+      - exact taction_step_all.
       - intros ef' o Hi Hl. now apply touts_related.
+    Qed.
+
+    (* ---- the final environment of the rewritten graph; what the pass reads is preserved *)
+    Let nodes' := map (subst_map (rho a)) (filter (keep a) (tg_nodes g)).
+    Let g' := mkTG nodes' (map (rho a) (tg_outputs g)) (tg_scalar g).
+
+    Lemma taction_env : exists ef', evalg nodes' e = Some ef' /\ Inv ef ef'.
+    Proof. exact (sim_env V sem Inv (keep a) (subst_map (rho a)) (tg_nodes g) e ef (tadm_ssa _ _ Hadm) tinv_init Hev taction_step_all). Qed.
+
+    Lemma tkept_plain m y : In m (tg_nodes g) -> keep a m = true -> In y (n_outs m) -> rho a y = y.
+    Proof.
+      intros Hm Hk Hy. destruct (in_members (chain_outs a) m) eqn:Em.
+      - pose proof (chain_member _ _ a T1 T2 Hnd Hcs m Hm Em) as Hc. rewrite (cs_chain_outs _ _ _ _ _ Hcs m Hc) in Hy.
+        destruct Hy as [<-|[]]. apply (rho_chain_out _ _ a T1 T2 Hcs). unfold chain_outs. apply in_map_iff. eauto.
+      - destruct (tother_outs m Hm Hk Em y Hy) as (_ & H2 & H1). now apply rho_other.
+    Qed.
+
+    Lemma tnew_defined ef' x w : evalg nodes' e = Some ef' -> Inv ef ef' -> ef' x = Some w -> exists v, ef x = Some v /\ trl x v w.
+    Proof.
+      intros Hev' [Hi1 Hi2] Hx.
+      assert (Hrho : rho a x = x).
+      { assert (Hdef : ef' x <> None) by congruence. destruct (eval_dom V sem _ _ _ _ Hev' Hdef) as [He|Hd].
+        - destruct (e x) as [v0|] eqn:Ex; [|congruence]. pose proof (proj2 (tadm_ssa _ _ Hadm)) as Hfree.
+          assert (Hnd' : ~ In x (defs (tg_nodes g))) by (intro Hd; rewrite (Hfree _ Hd) in Ex; discriminate).
+          apply rho_other; intros ->; apply Hnd'; unfold defs; apply in_flat_map.
+          + exists T1. split; [apply (cs_T1_in _ _ _ _ _ Hcs)|]. rewrite (cs_T1_outs _ _ _ _ _ Hcs). now left.
+          + exists T2. split; [apply (cs_T2_in _ _ _ _ _ Hcs)|]. rewrite (cs_T2_outs _ _ _ _ _ Hcs). now left.
+        - unfold defs, nodes' in Hd. apply in_flat_map in Hd as (m' & Hm' & Hy). apply in_map_iff in Hm' as (m & <- & Hm).
+          apply filter_In in Hm as [Hm Hk]. exact (tkept_plain m x Hm Hk Hy). }
+      assert (Hold : ef x <> None) by (apply Hi2; congruence).
+      destruct (ef x) as [v|] eqn:Ev; [|congruence]. destruct (Hi1 _ _ Ev) as (w0 & Ew0 & Hr). rewrite Hrho, Hx in Ew0. injection Ew0 as <-.
+      exists v. auto.
+    Qed.
+
+    Lemma trl_all1 x v w : trl x v w -> all1 (shape v) = all1 (shape w).
+    Proof.
+      unfold trl. destruct (tinD x); intro H.
+      - destruct (trel_facts p v w Hp (or_introl H)) as (Ha & _). exact Ha.
+      - now rewrite (proj1 H).
+    Qed.
+
+    Theorem tchain_admissible : tadmissible g' e /\ (uniform_operands A sem g e -> uniform_operands A sem g' e).
+    Proof.
+      destruct taction_env as (ef' & Hev' & Hi). split; [constructor|].
+      - cbn [g' tg_nodes]. apply ssa_sim; [reflexivity | exact (tadm_ssa _ _ Hadm)].
+      - intros ef2 x w Hev2 Hsc Hx. cbn [g' tg_nodes tg_scalar] in *. rewrite Hev' in Hev2. injection Hev2 as <-.
+        destruct (tnew_defined ef' x w Hev' Hi Hx) as (v & Ev & Hr). rewrite <- (trl_all1 x v w Hr).
+        exact (tadm_scalar _ _ Hadm ef x v Hev Hsc Ev).
+      - intros Huni ef2 n' vs' Hev2 Hn' Hel Hop Hl'. cbn [g' tg_nodes] in *. rewrite Hev' in Hev2. injection Hev2 as <-.
+        unfold nodes' in Hn'. apply in_map_iff in Hn' as (m & <- & Hm). apply filter_In in Hm as [Hm Hk].
+        assert (Hel_m : is_elem m = true) by exact Hel. assert (Hop_m : str_in (nop m) pw_ops_all = true) by exact Hop.
+        destruct (eval_consistent V sem _ _ _ m (tadm_ssa _ _ Hadm) Hev Hm) as (vs & o & Hl & _ & _).
+        destruct (rinv_lookups V (rho a) trl _ _ _ _ Hi Hl) as (vs2 & Hl2 & Hrl).
+        rewrite n_uses_subst_map, Hl2 in Hl'. injection Hl' as <-.
+        pose proof (Huni ef m vs Hev Hm Hel_m Hop_m Hl) as Hok.
+        destruct (in_members (chain_outs a) m) eqn:Em.
+        + (* a member of the chain: operands related by [trel p] *)
+          pose proof (chain_member _ _ a T1 T2 Hnd Hcs m Hm Em) as Hc.
+          destruct (tchain_in g _ _ m (tf_chain _ _ _ _ _ _ Htf) Hdf Hc) as (prev & y & Hprev & Ho & Hy & Hcaps & Hpin & Hallow & Hside & Hfirst).
+          assert (Hcl0 : String.eqb (nop m) "CastLike" = false).
+          { destruct (String.eqb_spec (nop m) "CastLike") as [E|]; auto. rewrite E in Hop_m. vm_compute in Hop_m. discriminate. }
+          rewrite Hcl0 in Hside. unfold n_uses in Hl, Hrl. rewrite Hcaps, app_nil_r in Hl, Hrl.
+          pose proof (trel_operands m prev Hprev Hside ef vs vs2 (fun x v H => H) Hl Hrl) as Htr2.
+          destruct (ef prev) as [x|] eqn:Ex; [|exfalso; exact (lookups_defined V ef _ _ prev Hl Hpin Ex)].
+          destruct Hi as [Hi1 _]. destruct (Hi1 _ _ Ex) as (x' & Ex' & Hrx). destruct (trl_full _ _ _ Hprev Hrx) as [Hxx' _].
+          assert (Hrank : Forall (fun v => length (shape v) <= length p) vs).
+          { apply (lookups_Forall V _ ef (n_ins m) vs Hl). intros u w Hu Ew. apply (chain_rank_bound m Hc) with (u := u); auto.
+            destruct (allowed_in_pw _ Hallow) as [E|E]; auto. rewrite E in Hcl0. discriminate. }
+          assert (Hex : Exists (fun v => length (shape v) = length p) vs).
+          { apply Exists_exists. exists x. split; [exact (lookups_In_val ef _ _ _ _ Hl Hpin Ex)|]. rewrite (proj1 Hxx'). simpl. apply gather_length. }
+          exact (proj1 (pwn_transpose (F ""%string []) p vs vs2 Hp Htr2 Hex Hrank Hok)).
+        + apply (operands_ok_shapes vs vs2); auto.
+          assert (Hclean : forall x, In x (n_uses m) -> tinD x = false).
+          { intros x Hx. apply tinD_false. intro Hd. exact (kept_clean _ _ a T1 T2 Hcs m x Hm Hk Em Hd Hx). }
+          clear - Hrl Hclean. induction Hrl as [|x v w xr vr wr Hx _ IH]; constructor.
+          * exact (proj1 (trl_teq x v w (Hclean x (or_introl eq_refl)) Hx)).
+          * apply IH. intros x0 H0. apply Hclean. now right.
     Qed.
   End TAction.
 End TSound.
@@ -1128,6 +1224,73 @@ Section TPassSound.
       eapply (avail_from_producer V sem (tg_nodes g) e T1 src a0 Hssa H1); eauto. unfold n_uses. apply in_or_app. now left.
   Qed.
 
+  (* the value bypassed by phase D case 2 *)
+  Lemma tmulti_fin g e ef T1 T2 p q src a0 b a :
+    tadmissible g e -> In T1 (tg_nodes g) -> In T2 (tg_nodes g) ->
+    is_T T1 = true -> perm_of T1 = Some p -> In src (n_ins T1) -> In a0 (n_outs T1) ->
+    is_T T2 = true -> perm_of T2 = Some q -> In a0 (n_ins T2) -> In b (n_outs T2) -> inv_ok p q = true ->
+    evalg (tg_nodes g) e = Some ef -> ef b = Some a -> exists b0, ef src = Some b0 /\ teq a b0.
+  Proof.
+    intros Hadm H1 H2 HT1 Hp1 Hs1 Ho1 HT2 Hp2 Hi2 Ho2 Hinv Hev Ha.
+    destruct (inv_ok_perms p q Hinv) as (Hiv & Hp & Hq).
+    destruct (tnode_final g e ef T1 p Hadm Hev H1 HT1 Hp1) as (u1 & y1 & x1 & v1 & Eu1 & Eo1 & Ex1 & Ey1 & Ht1 & Hl1).
+    destruct (tnode_final g e ef T2 q Hadm Hev H2 HT2 Hp2) as (u2 & y2 & x2 & v2 & Eu2 & Eo2 & Ex2 & Ey2 & Ht2 & Hl2).
+    assert (u1 = src) by (assert (In src (n_uses T1)) by (unfold n_uses; apply in_or_app; now left); rewrite Eu1 in H; destruct H as [|[]]; auto).
+    assert (y1 = a0) by (rewrite Eo1 in Ho1; destruct Ho1 as [|[]]; auto).
+    assert (u2 = a0) by (assert (In a0 (n_uses T2)) by (unfold n_uses; apply in_or_app; now left); rewrite Eu2 in H3; destruct H3 as [|[]]; auto).
+    assert (y2 = b) by (rewrite Eo2 in Ho2; destruct Ho2 as [|[]]; auto).
+    subst. rewrite Ha in Ey2. injection Ey2 as <-. rewrite Ex2 in Ey1. injection Ey1 as <-.
+    exists x1. split; auto.
+    eapply teq_trans; [exact Ht2|]. eapply teq_trans; [apply transpose_teq; [exact Hq | exact Hl2 | exact Ht1]|].
+    apply transpose_inverse; auto.
+  Qed.
+
+  Theorem tmulti_admissible g e ef T1 T2 p q src a0 b :
+    tadmissible g e -> In T1 (tg_nodes g) -> In T2 (tg_nodes g) ->
+    is_T T1 = true -> perm_of T1 = Some p -> In src (n_ins T1) -> In a0 (n_outs T1) ->
+    is_T T2 = true -> perm_of T2 = Some q -> In a0 (n_ins T2) -> In b (n_outs T2) -> inv_ok p q = true -> src <> b ->
+    evalg (tg_nodes g) e = Some ef ->
+    let rr := redirect_remove b src (tg_graph g) in
+    let g' := mkTG (g_nodes rr) (g_outputs rr) (tg_scalar g) in
+    tadmissible g' e /\ (uniform_operands A sem g e -> uniform_operands A sem g' e).
+  Proof.
+    intros Hadm H1 H2 HT1 Hp1 Hs1 Ho1 HT2 Hp2 Hi2 Ho2 Hinv Hne Hev rr g'. pose proof (tadm_ssa _ _ _ _ Hadm) as Hssa.
+    assert (Hfin : forall a, ef b = Some a -> exists b0, ef src = Some b0 /\ teq a b0).
+    { intros a Ha. exact (tmulti_fin g e ef T1 T2 p q src a0 b a Hadm H1 H2 HT1 Hp1 Hs1 Ho1 HT2 Hp2 Hi2 Ho2 Hinv Hev Ha). }
+    assert (Hav : avail_before V sem (tg_nodes g) e src b).
+    { intros pre post em a Hsplit Hpre Hfa.
+      assert (Ha0 : em a0 <> None).
+      { eapply (avail_from_producer V sem (tg_nodes g) e T2 a0 b Hssa H2); eauto. unfold n_uses. apply in_or_app. now left. }
+      destruct (em a0) as [va|] eqn:Ea; [|congruence].
+      eapply (avail_from_producer V sem (tg_nodes g) e T1 src a0 Hssa H1); eauto. unfold n_uses. apply in_or_app. now left. }
+    destruct (redirect_remove_env V teq (@teq_refl A) (@teq_sym A) (@teq_trans A) sem sem_proper (tg_graph g) e b src ef Hssa Hne Hfin Hav Hev)
+      as (ef' & Hev' & Hrel).
+    destruct (tnode_final g e ef T2 q Hadm Hev H2 HT2 Hp2) as (u2 & y2 & _ & _ & _ & Eo2 & _).
+    assert (Hb : n_outs T2 = [b]) by (rewrite Eo2 in *; destruct Ho2 as [->|[]]; reflexivity).
+    assert (Hex : existsb (node_is b) (tg_nodes g) = true).
+    { apply existsb_exists. exists T2. split; auto. unfold node_is. rewrite Hb. apply Nat.eqb_refl. }
+    pose proof (redirect_remove_o_undefined V sem (tg_graph g) e b src ef' Hssa Hex Hev') as Hundef.
+    assert (Hrel' : forall y w, ef' y = Some w -> exists v, ef y = Some v /\ teq v w).
+    { intros y w Hy. destruct (Nat.eq_dec y b) as [->|Hyb]; [congruence|]. exact (Hrel y w Hyb Hy). }
+    split; [constructor|].
+    - exact (redirect_remove_ssa V (tg_graph g) e b src Hssa).
+    - intros ef2 x w Hev2 Hsc Hx. unfold g', rr in Hev2, Hsc. cbn [tg_nodes tg_scalar] in Hev2, Hsc. rewrite Hev' in Hev2. injection Hev2 as <-.
+      destruct (Hrel' x w Hx) as (v & Ev & Ht). rewrite <- (proj1 Ht). exact (tadm_scalar _ _ _ _ Hadm ef x v Hev Hsc Ev).
+    - intros Huni ef2 n' vs' Hev2 Hn' Hel Hop Hl'. unfold g', rr in Hev2, Hn'. cbn [tg_nodes] in Hev2, Hn'. rewrite Hev' in Hev2. injection Hev2 as <-.
+      cbn [redirect_remove g_nodes tg_graph] in Hn'. apply In_remove_first in Hn'. apply in_map_iff in Hn' as (m & <- & Hm).
+      destruct (eval_consistent V sem _ _ _ m Hssa Hev Hm) as (vs & o & Hl & _ & _).
+      apply (operands_ok_shapes vs vs'); [|exact (Huni ef m vs Hev Hm Hel Hop Hl)].
+      rewrite n_uses_subst in Hl'. clear - Hl Hl' Hrel' Hfin. revert vs vs' Hl Hl'.
+      induction (n_uses m) as [|u r IH]; intros vs vs' Hl Hl'; simpl in Hl, Hl'.
+      + injection Hl as <-. injection Hl' as <-. constructor.
+      + destruct (ef u) as [v|] eqn:Eu; [|discriminate]. destruct (lookups V ef r) as [vr|] eqn:Er; [|discriminate]. injection Hl as <-.
+        destruct (ef' (rn b src u)) as [w|] eqn:Ew; [|discriminate]. destruct (lookups V ef' (map (rn b src) r)) as [wr|] eqn:Ewr; [|discriminate].
+        injection Hl' as <-. constructor; [|now apply IH].
+        destruct (Hrel' _ _ Ew) as (v0 & Ev0 & Ht). unfold rn in Ev0. destruct (Nat.eqb_spec u b) as [->|Hub].
+        * destruct (Hfin v Eu) as (b0 & Eb0 & Hvb). rewrite Ev0 in Eb0. injection Eb0 as <-. rewrite (proj1 Hvb). exact (proj1 Ht).
+        * rewrite Eu in Ev0. injection Ev0 as <-. exact (proj1 Ht).
+  Qed.
+
   (* ---- ordering facts of an SSA run: a node's inputs are other names than its outputs, and so are the inputs of
           the producer of one of its inputs *)
   Lemma run_at ns e ef n : evalg ns e = Some ef -> In n ns ->
@@ -1181,10 +1344,11 @@ Section TPassSound.
   Qed.
 
   (* phase C, direct pair: T1 -> T2 with T2 the only reader of T1's (unobserved) output *)
-  Theorem tdag_direct_sound g d e : tadmissible g e -> In (d_T2 d) (tg_nodes g) -> decide_dag g (d_T2 d) = Some d -> d_es d = [] ->
-    refinesg (tg_graph g) (tg_graph (apply_dag g d)) e.
+  Lemma tdag_direct_facts g d e ef : tadmissible g e -> In (d_T2 d) (tg_nodes g) -> decide_dag g (d_T2 d) = Some d -> d_es d = [] ->
+    evalg (tg_nodes g) e = Some ef ->
+    exists T1 p q a, tchain_facts g a T1 (d_T2 d) p q /\ ac_chain a = [] /\ tg_graph (apply_dag g d) = rewire a (tg_graph g).
   Proof.
-    intros Hadm Hin Hd Hes o Hrun. pose proof (tadm_ssa _ _ _ _ Hadm) as Hssa.
+    intros Hadm Hin Hd Hes Hev. pose proof (tadm_ssa _ _ _ _ Hadm) as Hssa.
     remember (d_T2 d) as t2 eqn:Et2. unfold decide_dag in Hd.
     destruct (is_T t2) eqn:ET2; [|discriminate]. cbn [negb] in Hd.
     destruct (first_in t2) as [t2_in|] eqn:Ef2; [|discriminate]. destruct (perm_of t2) as [q|] eqn:Eq; [|discriminate].
@@ -1199,9 +1363,6 @@ Section TPassSound.
     apply andb_prop in Ecnd as [Ecnd _]. apply andb_prop in Ecnd as [Ecnd Hcons]. apply andb_prop in Ecnd as [Hinv Hobs].
     apply negb_true_iff in Hobs.
     destruct (collect_direct _ _ _ _ Ecol) as [Hprod HT1]. apply producer_spec in Hprod as [HT1in Hprod].
-    assert (Hev : exists ef, evalg (tg_nodes g) e = Some ef).
-    { unfold run in Hrun. simpl in Hrun. destruct (evalg (tg_nodes g) e); [eauto|discriminate]. }
-    destruct Hev as [ef Hev].
     destruct (tnode_final g e ef T1 p Hadm Hev HT1in HT1 Ep) as (u1 & y1 & x1 & v1 & Eu1 & Ey1 & _).
     destruct (tnode_final g e ef t2 q Hadm Hev Hin ET2 Eq) as (u2 & y2 & x2 & v2 & Eu2 & Ey2 & _).
     assert (y1 = t1_out) by (unfold out1 in Eo1; rewrite Ey1 in Eo1; simpl in Eo1; congruence). subst y1.
@@ -1238,8 +1399,20 @@ Section TPassSound.
           assert (Ho2' : In y2 (n_outs t2)) by (rewrite Ey2; now left).
           exact (use2_ne_def (tg_nodes g) e ef T1 t2 t1_in t1_out y2 Hssa Hev HT1in Hin Hin1 Ho1' Hin2 Ho2'). }
         simpl. constructor; [intros [E|[E|[]]]; congruence|]. constructor; [intros [E|[]]; congruence|]. constructor; [intros []|constructor]. }
-    rewrite <- Hd. rewrite (apply_dag_rewire g T1 t2 t1_out t1_in y2 t1_out (proj1 Hssa) Ef1 Ey1 Ey2 Ef2).
-    exact (tchain_action_sound g a T1 t2 p q e Hadm Htf eq_refl o Hrun).
+    exists T1, p, q, a. split; [exact Htf|]. split; [reflexivity|]. rewrite <- Hd.
+    exact (apply_dag_rewire g T1 t2 t1_out t1_in y2 t1_out (proj1 Hssa) Ef1 Ey1 Ey2 Ef2).
+  Qed.
+
+  Theorem tdag_direct_sound g d e : tadmissible g e -> In (d_T2 d) (tg_nodes g) -> decide_dag g (d_T2 d) = Some d -> d_es d = [] ->
+    refinesg (tg_graph g) (tg_graph (apply_dag g d)) e.
+  Proof.
+    intros Hadm Hin Hd Hes o Hrun.
+    assert (Hev : exists ef, evalg (tg_nodes g) e = Some ef).
+    { unfold run in Hrun. simpl in Hrun. destruct (evalg (tg_nodes g) e); [eauto|discriminate]. }
+    destruct Hev as [ef Hev].
+    destruct (tdag_direct_facts g d e ef Hadm Hin Hd Hes Hev) as (T1 & p & q & a & Htf & Hch & Heq). rewrite Heq.
+    assert (Hdf : castlike_data_first (ac_t1 a) (ac_chain a) = true) by (now rewrite Hch).
+    exact (tchain_action_sound g a T1 (d_T2 d) p q e Hadm Htf Hdf o Hrun).
   Qed.
 
   (* ---- what decide_D's second case establishes *)
